@@ -155,7 +155,7 @@ class InplaceMonitor(taps.Monitor):
     def post(self, ctx, st, args, kw, c, exc):
         a, b = args[0], args[1] if len(args) > 1 else kw.get("transform")
         ka, kb = type(a).__name__, type(b).__name__
-        if digest(b) != st["db"]:
+        if b is not a and digest(b) != st["db"]:          # (composed with itself, the argument is the receiver)
             ctx.fail("inplace_compose_modified_its_argument", cls=kb, mech=self.direction + ":" + ka)
         if exc is not None:
             if isinstance(exc, ValueError):
@@ -424,6 +424,20 @@ def w_vector_inplace(ctx, rng, i):
         ctx.fail("inplace_composition_differs_from_the_out_of_place_map", cls=type(a).__name__, mech="after_from_vector_inplace", err=tx.maxdiff(got, ref))
     if tx.maxdiff(v, np.asarray(b.as_vector(), dtype=float)) > 0:
         ctx.fail("compose_modified_its_argument", cls=type(a).__name__, mech="after_from_vector_inplace:vector")
+    # a transform composed in place with itself (squaring it: "apply the same step again"): a o a, both ways
+    sq_ref = a.apply(a.apply(x))
+    for how in ("compose_before_inplace", "compose_after_inplace"):
+        r2 = a.copy()
+        try:
+            getattr(r2, how)(r2)
+        except ValueError:
+            continue
+        except Exception as e:
+            ctx.fail("compose_raised", cls=type(a).__name__, mech=how + ":with_itself:" + type(e).__name__, error=repr(e)[:160])
+            continue
+        ctx.tap("inplace_composition_with_itself", "calls"); ctx.tap("inplace_composition_with_itself", "checked")
+        if not (tx.maxdiff(r2.apply(x), sq_ref) <= 1e-8 * max(1.0, float(np.abs(sq_ref).max()))):
+            ctx.fail("inplace_composition_differs_from_the_out_of_place_map", cls=type(a).__name__, mech=how + ":with_itself", err=tx.maxdiff(r2.apply(x), sq_ref))
     ctx.count_case(("vector_inplace", kind, d), nontrivial=True)
 
 
